@@ -15,64 +15,7 @@ GHOST_ARR(unsigned long, PP, 6)
 GHOST_ARR(unsigned long, HPv, 36)
 #define HP(k, j) HPv[(k) * 6UL + (j)]
 
-static inline int c20_traces_vals(unsigned long s0, unsigned long s1, unsigned long s2, unsigned long s3)
-{
-  unsigned long s[4] = {s0, s1, s2, s3};
-  int ok = GHOST_DEF(PP[0], 1UL);
-  for (unsigned long t = 0; t < C20_DIM; t++)
-    ok = ok && GHOST_DEF(PP[t + 1], MUL_ul(PP[t], s[t]));
-  for (unsigned long k = 0; k < C20_DIM; k++) {
-    ok = ok && GHOST_DEF(HP(k, k + 1), 1UL);
-    for (unsigned long j = 0; j < C20_DIM; j++)
-      if (j > k) ok = ok && GHOST_DEF(HP(k, j + 1), MUL_ul(HP(k, j), s[j]));
-  }
-  return ok;
-}
-static inline int c20_traces(sv4_t s)
-{ return c20_traces_vals(SV_AT(s, 0), SV_AT(s, 1), SV_AT(s, 2), SV_AT(s, 3)); }
-/* the shape a default-constructed array starts with: (1), storage behind it zero */
-static inline int c20_traces_default(void)
-{ return c20_traces_vals(1UL, 0UL, 0UL, 0UL); }
-
-/* callable spec: product of the extents in [lo,hi) */
-static inline unsigned long c20_prod(sv4_t shape, unsigned long lo, unsigned long hi)
-{
-  unsigned long p = 1UL;
-  for (unsigned long j = 0; j < C20_DIM; j++)
-    if (j >= lo && j < hi) p = MUL_ul(p, SV_AT(shape, j));
-  return p;
-}
-#define c20_numel(shape) c20_prod(shape, 0UL, SV_LEN(shape))
-
-/* representation invariants of the bounded vectors (C19) */
-static inline int c20_rep(fb6_t data, sv4_t shape, sv4_t strides, sv4_t oshape, sv4_t ostrides)
-{
-  return SV_LEN(data) <= C20_BUF && SV_LEN(shape) <= C20_DIM && SV_LEN(strides) <= C20_DIM
-      && SV_LEN(oshape) <= C20_DIM && SV_LEN(ostrides) <= C20_DIM;
-}
-/* Inv at the ghost position g: element count == product of the shape; strides == row-major strides of the shape; the offset
- * functor holds the same shape and strides; all four index vectors have the same length */
-static inline int c20_inv(fb6_t data, sv4_t shape, sv4_t strides, sv4_t oshape, sv4_t ostrides)
-{
-  unsigned long n = SV_LEN(shape);
-  return c20_rep(data, shape, strides, oshape, ostrides)
-      && SV_LEN(strides) == n && SV_LEN(oshape) == n && SV_LEN(ostrides) == n
-      && c20_numel(shape) == SV_LEN(data)
-      && IMPLIES(g < n, SV_AT(strides, g) == c20_prod(shape, g + 1, n)
-                     && SV_AT(oshape, g) == SV_AT(shape, g)
-                     && SV_AT(ostrides, g) == SV_AT(strides, g));
-}
-#define C20_INV_OF(x) c20_inv((x).data_, (x).shape_, (x).strides_, (x).offset_.shape_, (x).offset_.strides_)
-
-/* equality of the live part (length and the element at the ghost position) */
-static inline int c20_same4(sv4_t x, sv4_t y)
-{ return SV_LEN(x) == SV_LEN(y) && IMPLIES(g < SV_LEN(y), SV_AT(x, g) == SV_AT(y, g)); }
-static inline int c20_feq(float x, float y) { return x == y || (x != x && y != y); }
-static inline int c20_same6(fb6_t x, fb6_t y)
-{ return SV_LEN(x) == SV_LEN(y) && IMPLIES(g < SV_LEN(y), c20_feq(SV_AT(x, g), SV_AT(y, g))); }
-#define C20_SAME_OF(x, data, shape, strides, oshape, ostrides) \
-  (c20_same6((x).data_, data) && c20_same4((x).shape_, shape) && c20_same4((x).strides_, strides) \
-   && c20_same4((x).offset_.shape_, oshape) && c20_same4((x).offset_.strides_, ostrides))
+#include "spec/c20_common.h"
 
 /* ---------------------------------------------------------------- verif_nd_mk: object with exactly the given state */
 static inline int pre_verif_nd_mk(fb6_t data, sv4_t shape, sv4_t strides, sv4_t oshape, sv4_t ostrides)
